@@ -40,7 +40,7 @@ type c03Image struct {
 	K      int    // micro-steps of the model's flattened history executed before the crash
 	After  string // name of the last micro-step
 	Dir    string
-	Expect int // entries 1..Expect are durable (acknowledged, or covered by a visible snapshot)
+	Expect int  // entries 1..Expect are durable (acknowledged, or covered by a visible snapshot)
 	Fresh  bool // a write was acknowledged since the previous snapshot and the crash is inside a snapshot / restore path
 	// filled by reopening
 	Content []int
@@ -120,7 +120,7 @@ func c03RunCase(in c03Input, base string, seq int) VCase {
 	defer os.RemoveAll(dir)
 	defer os.RemoveAll(scratch)
 	n := vsNewNode(dir, "n1")
-	defer n.ln.Close()
+	defer func() { n.ln.Close() }()
 	if err := n.openSingle(true); err != nil {
 		return VCase{Input: in, Key: key, Inconcl: "node did not start: " + err.Error()}
 	}
@@ -280,10 +280,7 @@ func c03RunCase(in c03Input, base string, seq int) VCase {
 				return fail(i, op, err)
 			}
 		case "restart":
-			if err := s.Close(true); err != nil {
-				return fail(i, op, err)
-			}
-			if err := n.openSingle(false); err != nil {
+			if err := n.restart(); err != nil {
 				return fail(i, op, err)
 			}
 			k++
@@ -408,10 +405,10 @@ func c03Corpus() []c03Input {
 	SC := func(t int) c03Op { return c03Op{Kind: "snap", Compact: t} }
 	I := func(e int) c03Op { return c03Op{Kind: "install", Extra: e} }
 	return []c03Input{
-		{Ops: []c03Op{W, W, S, W, W, W, S, W, R, W, S}},                // full then incrementals, with writes in between
-		{Ops: []c03Op{W, W, W, S, W, W, I(2), R, W, S, W}},            // install on a node with its own snapshot and later writes
-		{Ops: []c03Op{W, SC(1), W, W, S, R, W, SC(2), W, S, R, S}},    // compaction, restart, snapshot without WAL
-		{Ops: []c03Op{W, W, I(0), R, W, W, S, W, SC(1), R, W}},        // install at the node's own index
+		{Ops: []c03Op{W, W, S, W, W, W, S, W, R, W, S}},            // full then incrementals, with writes in between
+		{Ops: []c03Op{W, W, W, S, W, W, I(2), R, W, S, W}},         // install on a node with its own snapshot and later writes
+		{Ops: []c03Op{W, SC(1), W, W, S, R, W, SC(2), W, S, R, S}}, // compaction, restart, snapshot without WAL
+		{Ops: []c03Op{W, W, I(0), R, W, W, S, W, SC(1), R, W}},     // install at the node's own index
 	}
 }
 
